@@ -1,4 +1,5 @@
 (* C11 (c) — the imported problem carries exactly the tables' data; vehicle ids built from the profile collide. *)
+From Coq Require Import DecimalString DecimalNat Decimal FinFun.
 From VRP Require Import Base.Tac Base.Json Model.SerdeSem Proofs.SerdeP Generated.ProblemCodec Model.Csv.
 Open Scope string_scope.
 
@@ -156,43 +157,84 @@ Proof.
   unfold profile_names. rewrite dedup_in, in_map_iff. split; intros (r & H1 & H2); exists r; auto.
 Qed.
 
-(* the defect: vehicle ids are "<PROFILE>_<seq>", so two rows with the same profile (and AMOUNT >= 1) collide *)
-Lemma first_vehicle_id r : (1 <= Z.to_nat (usizev (vr_amount r)))%nat ->
-  In (vehicle_id (vr_profile r) 1) (vehicle_ids_of r).
+(* vehicle ids are "<ID>_<seq>" (repair 9df6aa4 of finding C11-F1): distinct whenever the type ids are distinct *)
+Fixpoint has_us (s : string) : bool :=
+  match s with EmptyString => false | String c r => Ascii.eqb c "_" || has_us r end.
+
+Lemma has_us_app s d : has_us (s ++ String "_" d) = true.
+Proof. induction s as [|c s IH]; cbn; [reflexivity|]. rewrite IH. apply orb_true_r. Qed.
+
+Lemma sep_inj : forall s1 s2 d1 d2, has_us d1 = false -> has_us d2 = false ->
+  (s1 ++ String "_" d1 = s2 ++ String "_" d2)%string -> s1 = s2 /\ d1 = d2.
 Proof.
-  intros H. unfold vehicle_ids_of. apply in_map. apply in_seq. lia.
+  induction s1 as [|c s1 IH]; intros s2 d1 d2 H1 H2 E; destruct s2 as [|c' s2]; cbn in E.
+  - injection E as E. auto.
+  - injection E as Ec Er. subst d1. rewrite has_us_app in H1. discriminate.
+  - injection E as Ec Er. subst d2. rewrite has_us_app in H2. discriminate.
+  - injection E as Ec Er. destruct (IH s2 d1 d2 H1 H2 Er) as (-> & ->). subst. auto.
 Qed.
 
-Lemma nodup_app_r {A} (l l' : list A) : NoDup (l ++ l') -> NoDup l'.
-Proof. induction l as [|a l IH]; cbn; [auto|]. intros H. inversion H; auto. Qed.
-Lemma nodup_app_disj {A} (l l' : list A) x : NoDup (l ++ l') -> In x l -> In x l' -> False.
+Lemma has_us_uint d : has_us (NilEmpty.string_of_uint d) = false.
+Proof. induction d; cbn; auto. Qed.
+
+Lemma dec_inj a b : dec_string_of_nat a = dec_string_of_nat b -> a = b.
 Proof.
-  induction l as [|a l IH]; cbn; [contradiction|]. intros H [->|Hi] Hx; inversion H as [|? ? Hn Hr]; subst.
-  - apply Hn. apply in_or_app. right. exact Hx.
-  - apply IH; assumption.
+  unfold dec_string_of_nat. intros H. apply (f_equal NilEmpty.uint_of_string) in H.
+  rewrite !NilEmpty.usu in H. injection H as H. apply (f_equal Nat.of_uint) in H.
+  rewrite !DecimalNat.Unsigned.of_to in H. exact H.
 Qed.
 
-Lemma nodup_flat_map_disjoint {A B} (f : A -> list B) l1 a l2 b x :
-  In x (f a) -> In x (f b) -> ~ NoDup (flat_map f (l1 ++ a :: l2 ++ b :: nil)) .
+Lemma vehicle_id_inj i1 k1 i2 k2 : vehicle_id i1 k1 = vehicle_id i2 k2 -> i1 = i2 /\ k1 = k2.
 Proof.
-  intros Ha Hb Hn. rewrite flat_map_app in Hn. cbn [flat_map] in Hn.
-  apply nodup_app_r in Hn. rewrite flat_map_app in Hn. cbn [flat_map] in Hn.
-  rewrite app_nil_r in Hn.
-  apply (nodup_app_disj _ _ x Hn Ha). apply in_or_app. right. exact Hb.
+  unfold vehicle_id. intros H.
+  change ("_" ++ dec_string_of_nat k1)%string with (String "_" (dec_string_of_nat k1)) in H.
+  change ("_" ++ dec_string_of_nat k2)%string with (String "_" (dec_string_of_nat k2)) in H.
+  apply sep_inj in H; try apply has_us_uint. destruct H as (Hi & Hk). split; [exact Hi|apply dec_inj; exact Hk].
 Qed.
 
-Lemma csv_shared_profile_collides : forall ord pord rows vs1 r1 vs2 r2,
-  vr_profile r1 = vr_profile r2 ->
-  (1 <= Z.to_nat (usizev (vr_amount r1)))%nat -> (1 <= Z.to_nat (usizev (vr_amount r2)))%nat ->
-  ~ NoDup (all_vehicle_ids (read_csv_ord ord pord rows (vs1 ++ r1 :: vs2 ++ [r2]))).
+Lemma nodup_app_intro {A} (l l' : list A) :
+  NoDup l -> NoDup l' -> (forall x, In x l -> In x l' -> False) -> NoDup (l ++ l').
 Proof.
-  intros ord pord rows vs1 r1 vs2 r2 Hp H1 H2. unfold all_vehicle_ids.
-  cbn [Problem_fleet read_csv_ord Fleet_vehicles]. unfold read_vehicles.
-  rewrite flat_map_concat_map, map_map, <- flat_map_concat_map.
-  change (fun x => VehicleType_vehicle_ids (veh_of_row x)) with vehicle_ids_of.
-  apply (nodup_flat_map_disjoint vehicle_ids_of vs1 r1 vs2 r2 (vehicle_id (vr_profile r1) 1)).
-  - apply first_vehicle_id. exact H1.
-  - rewrite Hp. apply first_vehicle_id. exact H2.
+  induction l as [|a l IH]; cbn; [auto|]. intros Hl Hl' Hd. inversion Hl as [|? ? Hn Hr]; subst. constructor.
+  - intros Hin. apply in_app_or in Hin. destruct Hin as [Hin|Hin]; [contradiction|].
+    apply (Hd a); [left; reflexivity|exact Hin].
+  - apply IH; auto. intros x Hx. apply Hd. right. exact Hx.
+Qed.
+
+Lemma vehicle_ids_of_nodup r : NoDup (vehicle_ids_of r).
+Proof.
+  unfold vehicle_ids_of. apply FinFun.Injective_map_NoDup; [|apply seq_NoDup].
+  intros a b H. apply vehicle_id_inj in H. tauto.
+Qed.
+
+Lemma vehicle_ids_rows_nodup : forall vrows, NoDup (map vr_id vrows) -> NoDup (flat_map vehicle_ids_of vrows).
+Proof.
+  induction vrows as [|r l IH]; cbn; intros H; [constructor|]. inversion H as [|? ? Hn Hr]; subst.
+  apply nodup_app_intro; [apply vehicle_ids_of_nodup|apply IH; exact Hr|].
+  intros x Hx Hx'. apply in_flat_map in Hx'. destruct Hx' as (r' & Hr' & Hx').
+  unfold vehicle_ids_of in Hx, Hx'. apply in_map_iff in Hx. apply in_map_iff in Hx'.
+  destruct Hx as (k & <- & _). destruct Hx' as (k' & E & _). apply vehicle_id_inj in E.
+  destruct E as (E & _). apply Hn. rewrite <- E. apply in_map. exact Hr'.
+Qed.
+
+Lemma all_vehicle_ids_rows ord pord rows vrows :
+  all_vehicle_ids (read_csv_ord ord pord rows vrows) = flat_map vehicle_ids_of vrows.
+Proof.
+  unfold all_vehicle_ids. cbn [Problem_fleet read_csv_ord Fleet_vehicles]. unfold read_vehicles.
+  rewrite flat_map_concat_map, map_map, <- flat_map_concat_map. reflexivity.
+Qed.
+
+(* distinct type ids (the table's own key, E1300) give distinct vehicle ids (E1301), whatever the profiles and amounts *)
+Lemma csv_vehicle_ids_distinct : forall ord pord rows vrows,
+  NoDup (map vr_id vrows) -> NoDup (all_vehicle_ids (read_csv_ord ord pord rows vrows)).
+Proof. intros. rewrite all_vehicle_ids_rows. apply vehicle_ids_rows_nodup. assumption. Qed.
+
+Lemma csv_vehicle_ids_shape : forall r x,
+  In x (vehicle_ids_of r) <-> exists k, (1 <= k <= Z.to_nat (usizev (vr_amount r)))%nat /\ x = vehicle_id (vr_id r) k.
+Proof.
+  intros r x. unfold vehicle_ids_of. rewrite in_map_iff. split.
+  - intros (k & <- & Hk). apply in_seq in Hk. exists k. split; [lia|reflexivity].
+  - intros (k & Hk & ->). exists k. split; [reflexivity|]. apply in_seq. lia.
 Qed.
 
 (* concrete witnesses *)
@@ -202,8 +244,9 @@ Definition wit_vrow (id : string) : VehRow :=
 Definition wit_jrow (d : i32) : JobRow :=
   mk_JobRow "job1" (Mk_fl 105 1) (Mk_fl 27 1) d (Mk_usize 5 eq_refl) None None.
 
-Lemma csv_valid_witness :
-  all_vehicle_ids (read_csv [] [wit_vrow "vehicle1"; wit_vrow "vehicle2"]) = ["car_1"; "car_2"; "car_1"; "car_2"].
+Lemma csv_shared_profile_witness :
+  all_vehicle_ids (read_csv [] [wit_vrow "vehicle1"; wit_vrow "vehicle2"])
+  = ["vehicle1_1"; "vehicle1_2"; "vehicle2_1"; "vehicle2_2"].
 Proof. vm_compute. reflexivity. Qed.
 
 Lemma csv_panic_witness : csv_panics [wit_jrow (Mk_i32 (-2147483648) eq_refl)] = true.
@@ -216,14 +259,6 @@ Lemma csv_nonvacuous_witness :
 Proof.
   split; [vm_compute; reflexivity|]. split; [vm_compute; reflexivity|].
   vm_compute. repeat constructor; cbn; intuition discriminate.
-Qed.
-
-Lemma csv_valid_refuted :
-  exists vrows, NoDup (map vr_id vrows) /\ ~ NoDup (all_vehicle_ids (read_csv [] vrows)).
-Proof.
-  exists [wit_vrow "vehicle1"; wit_vrow "vehicle2"]. split.
-  - cbn. repeat constructor; cbn; intuition discriminate.
-  - rewrite csv_valid_witness. intros H. inversion H as [|? ? Hn _]; subst. apply Hn. cbn. auto.
 Qed.
 
 Lemma csv_total_refuted : exists rows, csv_panics rows = true.
